@@ -223,12 +223,14 @@ Section Framework.
 Variable h : heur.
 Hypothesis Hgood : good_suggest h.
 Variable T : list Z.    (* the caller's targets *)
+Variable B : Z.         (* a bound on the targets, at least 2 *)
 
 Definition Inv (proto c : list Z) : Prop :=
   sd proto /\ In 1 proto /\ In 2 proto /\ (forall y, In y proto -> 1 <= y) /\
   sd c /\ (forall x y, In x c -> In y proto -> y < x) /\
   (forall x, In x c -> exists u v, U proto c u /\ U proto c v /\ u + v = x) /\
-  (forall z, In z T -> U proto c z).
+  (forall z, In z T -> U proto c z) /\
+  2 <= B /\ (forall z, U proto c z -> z <= B).
 
 Lemma short_proto proto : sd proto -> In 1 proto -> In 2 proto -> (length proto <= 2)%nat -> proto = [1; 2].
 Proof.
@@ -239,7 +241,8 @@ Proof.
     destruct H1 as [E1|[E1|[]]]; destruct H2 as [E2|[E2|[]]]; subst; try reflexivity; try lia.
 Qed.
 
-Definition result_ok (c : list Z) : Prop := CL c /\ forall z, In z T -> In z c.
+Definition result_ok (c : list Z) : Prop :=
+  CL c /\ (forall z, In z T -> In z c) /\ forall z, In z c -> z <= B.
 
 Theorem loop_spec : forall fuel proto c, Inv proto c ->
   match loop h fuel proto c with
@@ -252,12 +255,12 @@ Proof using Hgood.
   induction fuel as [|fuel IH]; intros proto c HI.
   - destruct HI as (Hsp & H1 & H2 & _). cbn [loop].
     pose proof (nd_last_max proto (sd_nd _ Hsp) 2 H2). lia.
-  - cbn [loop]. unfold loop_body. destruct HI as (Hsp & H1 & H2 & Hge & Hsc & Hlt & Hex & HT).
+  - cbn [loop]. unfold loop_body. destruct HI as (Hsp & H1 & H2 & Hge & Hsc & Hlt & Hex & HT & HB2 & HB).
     destruct (length proto <=? 2)%nat eqn:El.
     + (* only {1,2} left *)
       apply Nat.leb_le in El. rewrite (short_proto proto Hsp H1 H2 El) in *.
       assert (Hin : forall z, In z (merge_unique [1; 2] c) <-> U [1; 2] c z) by (intros z; apply merge_in).
-      split; [|intros z Hz; apply Hin; now apply HT].
+      split; [|split; [intros z Hz; apply Hin; now apply HT|intros z Hz; apply HB, Hin, Hz]].
       split; [apply merge_sd; [apply CL_12|assumption]|].
       split; [apply Hin; left; simpl; auto|]. split.
       * intros x Hx. apply Hin in Hx as [Hx|Hx]; [apply Hge; assumption|].
@@ -300,7 +303,7 @@ Proof using Hgood.
           - right. apply Hc'. auto. }
         assert (HI' : Inv (merge_unique proto' ins) (insert_sorted_unique c t)).
         { split; [apply merge_sd; assumption|]. split; [apply Hp''; auto|]. split; [apply Hp''; auto|].
-          split; [|split; [|split; [|split]]].
+          split; [|split; [|split; [|split; [|split; [|split]]]]].
           + intros y Hy. apply Hp'' in Hy as [Hy|Hy]; [apply Hge, Hsub, Hy|specialize (Hbi y Hy); lia].
           + apply insert_sd; assumption.
           + intros x y Hx Hy. apply Hc' in Hx. apply Hp'' in Hy.
@@ -310,7 +313,12 @@ Proof using Hgood.
           + intros x Hx. apply Hc' in Hx as [->|Hx].
             * exists u, v. repeat split; auto; left; apply Hp''; assumption.
             * destruct (Hex x Hx) as (a & b & Ha & Hb & E). exists a, b. repeat split; auto.
-          + intros z Hz. apply Hmove. now apply HT. }
+          + intros z Hz. apply Hmove. now apply HT.
+          + exact HB2.
+          + assert (HtB : t <= B) by (apply HB; left; exact Hint).
+            intros z [Hz|Hz].
+            * apply Hp'' in Hz as [Hz|Hz]; [apply HB; left; apply Hsub, Hz|specialize (Hbi z Hz); lia].
+            * apply Hc' in Hz as [->|Hz]; [exact HtB|apply HB; right; exact Hz]. }
         specialize (IH _ _ HI').
         destruct (loop h fuel (merge_unique proto' ins) (insert_sorted_unique c t)) as [cf|e|e|]; try exact IH.
         (* out of fuel: the new maximum is below t *)
@@ -322,20 +330,40 @@ Proof using Hgood.
       * split; [reflexivity|]. intros Htot. exact (Htot proto' t Hpre Es).
 Qed.
 
-Lemma init_inv : (forall z, In z T -> 0 < z) -> Inv (init_proto T) [].
+Lemma init_inv : (forall z, In z T -> 0 < z) -> 2 <= B -> (forall z, In z T -> z <= B) -> Inv (init_proto T) [].
 Proof.
-  intros Hpos. unfold init_proto.
+  intros Hpos HB2 HTB. unfold init_proto.
   destruct (unique_spec (sort ([1; 2] ++ T)) (sort_nd _)) as [Hs Hi].
   assert (Hin : forall z, In z (unique (sort ([1; 2] ++ T))) <-> z = 1 \/ z = 2 \/ In z T).
   { intros z. rewrite Hi, sort_in. simpl. intuition. }
-  split; [assumption|]. split; [apply Hin; auto|]. split; [apply Hin; auto|]. split; [|split; [|split; [|split]]].
+  split; [assumption|]. split; [apply Hin; auto|]. split; [apply Hin; auto|].
+  split; [|split; [|split; [|split; [|split; [|split]]]]].
   - intros y Hy. apply Hin in Hy as [->|[->|Hy]]; try lia. specialize (Hpos y Hy). lia.
   - exact I.
   - intros x y [].
   - intros x [].
   - intros z Hz. left. apply Hin. auto.
+  - exact HB2.
+  - intros z [Hz|[]]. apply Hin in Hz as [->|[->|Hz]]; [lia|lia|auto].
 Qed.
 End Framework.
+
+Lemma init_proto_spec T : sd (init_proto T) /\ forall z, In z (init_proto T) <-> z = 1 \/ z = 2 \/ In z T.
+Proof.
+  unfold init_proto. destruct (unique_spec (sort ([1; 2] ++ T)) (sort_nd _)) as [Hs Hi].
+  split; [assumption|]. intros z. rewrite Hi, sort_in. simpl. intuition.
+Qed.
+
+Lemma init_proto_last T : let B := last (init_proto T) 0 in
+  2 <= B /\ (forall z, In z T -> z <= B) /\ (B = 1 \/ B = 2 \/ In B T).
+Proof.
+  destruct (init_proto_spec T) as [Hs Hi]. cbn zeta.
+  assert (Hne : init_proto T <> []).
+  { intros E. assert (Hx : In 1 (init_proto T)) by (apply Hi; auto). rewrite E in Hx. destruct Hx. }
+  pose proof (nd_last_max _ (sd_nd _ Hs)) as Hmax.
+  split; [apply Hmax, Hi; auto|]. split; [intros z Hz; apply Hmax, Hi; auto|].
+  apply Hi. now apply last_in.
+Qed.
 
 Lemma is_just_one_spec ts : is_just_one ts = true -> ts = [1].
 Proof.
@@ -354,17 +382,22 @@ Qed.
 (* FindSequence for any heuristic meeting good_suggest, any fuel *)
 Theorem find_sequence_ok h : good_suggest h -> forall ts, (forall t, In t ts -> 0 < t) -> forall fuel,
   match find_sequence h fuel ts with
-  | Ok c => is_chain c /\ asc c /\ forall t, In t ts -> In t c
+  | Ok c => is_chain c /\ asc c /\ (forall t, In t ts -> In t c) /\
+            (forall x, In x c -> x <= 2 \/ exists t, In t ts /\ x <= t)
   | Err e => e = noseq /\ ~ total h
   | Panic _ => False
   | OutOfFuel => Z.of_nat fuel <= last (init_proto ts) 0 - 2
   end.
 Proof.
   intros Hg ts Hpos fuel. unfold find_sequence. destruct (is_just_one ts) eqn:E1.
-  - apply is_just_one_spec in E1. subst ts. destruct chain_one as [A B]. split; [assumption|]. split; [assumption|auto].
-  - pose proof (loop_spec h Hg ts fuel (init_proto ts) [] (init_inv ts Hpos)) as H.
+  - apply is_just_one_spec in E1. subst ts. destruct chain_one as [A B]. split; [assumption|]. split; [assumption|].
+    split; [auto|]. intros x [<-|[]]. left. lia.
+  - destruct (init_proto_last ts) as (HB2 & HTB & HBin). set (B := last (init_proto ts) 0) in *.
+    pose proof (loop_spec h Hg ts B fuel (init_proto ts) [] (init_inv ts B Hpos HB2 HTB)) as H.
     destruct (loop h fuel (init_proto ts) []) as [c|e|e|]; try exact H.
-    destruct H as [HCL HT]. destruct (CL_is_chain c HCL) as [A B]. auto.
+    destruct H as (HCL & HT & HBd). destruct (CL_is_chain c HCL) as [A A']. split; [assumption|]. split; [assumption|].
+    split; [assumption|]. intros x Hx. specialize (HBd x Hx).
+    destruct HBin as [E|[E|Hin]]; [left; lia|left; lia|right; exists B; auto].
 Qed.
 
 (* fuel adequacy: the popped maxima strictly decrease *)
@@ -397,7 +430,8 @@ Qed.
 
 Theorem find_sequence_go_ok h : good_suggest h -> forall ts, (forall t, In t ts -> 0 < t) ->
   match find_sequence_go h ts with
-  | Ok c => is_chain c /\ asc c /\ forall t, In t ts -> In t c
+  | Ok c => is_chain c /\ asc c /\ (forall t, In t ts -> In t c) /\
+            (forall x, In x c -> x <= 2 \/ exists t, In t ts /\ x <= t)
   | Err e => e = noseq /\ ~ total h
   | _ => False
   end.
@@ -406,9 +440,70 @@ Proof.
   pose proof (find_sequence_ok h Hg ts Hpos (2 ^ iter_bits ts)) as H.
   destruct (find_sequence h (2 ^ iter_bits ts) ts) as [c|e|e|]; try exact H.
   (* OutOfFuel is impossible: 2^bitlen(max) > max *)
-  destruct (init_inv ts Hpos) as (Hsp & H1 & H2 & _).
-  pose proof (nd_last_max _ (sd_nd _ Hsp) 2 H2) as Hl2.
+  destruct (init_proto_last ts) as (Hl2 & _ & _).
   pose proof (bitlen_pos (last (init_proto ts) 0) ltac:(lia)) as [_ Hlt].
   rewrite Nat2Z.inj_pow in H. unfold iter_bits in H. rewrite N_nat_Z in H.
   change (Z.of_nat 2) with 2 in H. lia.
+Qed.
+
+(* ---------- every heuristic value is good; which ones are total ---------- *)
+Fixpoint heur_good (h : heur) : good_suggest h :=
+  match h with
+  | Halving => halving_good
+  | DeltaLargest => delta_good
+  | Approximation => approx_good
+  | UseFirst hs =>
+      usefirst_good hs
+        ((fix all (l : list heur) : Forall good_suggest l :=
+            match l with
+            | [] => Forall_nil _
+            | x :: r => Forall_cons x (heur_good x) (all r)
+            end) hs)
+  end.
+
+Fixpoint is_total (h : heur) : bool :=
+  match h with
+  | Halving => false
+  | DeltaLargest | Approximation => true
+  | UseFirst hs => existsb is_total hs
+  end.
+
+Fixpoint is_total_sound (h : heur) : is_total h = true -> total h :=
+  match h return is_total h = true -> total h with
+  | Halving => fun E => False_ind _ (Bool.diff_false_true E)
+  | DeltaLargest => fun _ => delta_total
+  | Approximation => fun _ => approx_total
+  | UseFirst hs => fun E =>
+      usefirst_total hs
+        ((fix ex (l : list heur) : existsb is_total l = true -> Exists total l :=
+            match l return existsb is_total l = true -> Exists total l with
+            | [] => fun E0 => False_ind _ (Bool.diff_false_true E0)
+            | x :: r => fun E0 =>
+                match is_total x as b return is_total x = b -> b || existsb is_total r = true -> Exists total (x :: r) with
+                | true => fun Ex _ => Exists_cons_hd _ x r (is_total_sound x Ex)
+                | false => fun _ Er => Exists_cons_tl x (ex r Er)
+                end eq_refl E0
+            end) hs E)
+  end.
+
+Lemma halving_not_total : ~ total Halving.
+Proof.
+  intros Ht. apply (Ht [1; 2] 3); [|reflexivity].
+  split; [simpl; repeat split; intros y Hy; simpl in Hy; intuition; subst; lia|].
+  split; [simpl; auto|]. split; [simpl; auto|]. intros y Hy. simpl in Hy. intuition; subst; lia.
+Qed.
+
+(* FindSequence of heuristic.NewAlgorithm(h), as the entry point runs it, for every heuristic value *)
+Theorem heuristic_find_sequence_ok h ts : (forall t, In t ts -> 0 < t) ->
+  match find_sequence_go h ts with
+  | Ok c => is_chain c /\ asc c /\ (forall t, In t ts -> In t c) /\
+            (forall x, In x c -> x <= 2 \/ exists t, In t ts /\ x <= t)
+  | Err e => e = noseq /\ is_total h = false
+  | _ => False
+  end.
+Proof.
+  intros Hpos. pose proof (find_sequence_go_ok h (heur_good h) ts Hpos) as H.
+  destruct (find_sequence_go h ts) as [c|e|e|]; try exact H.
+  destruct H as [E Hn]. split; [assumption|]. destruct (is_total h) eqn:Et; [|reflexivity].
+  exfalso. apply Hn. now apply is_total_sound.
 Qed.
